@@ -286,6 +286,7 @@ C   ANY DAMAGES THAT MAY RESULT FROM THE USE OF THE PROGRAM.
       COMMON /CT/ TR1,TI1
       COMMON /TMAT/ RT11,RT12,RT21,RT22,IT11,IT12,IT21,IT22
       COMMON /CHOICE/ ICHOICE
+      COMMON /CFAIL/ IFAIL
  
 C  OPEN FILES *******************************************************
  
@@ -374,6 +375,11 @@ C        no convergence within the array bounds: flag failure to the caller
          CALL CONST(NGAUSS,NMAX,MMAX,P,X,W,AN,ANN,S,SS,NP,EPS)
          CALL VARY(LAM,MRR,MRI,A,EPS,NP,NGAUSS,X,P,PPI,PIR,PII,R,
      &              DR,DDR,DRR,DRI,NMAX)
+         IF (IFAIL.NE.0) THEN
+C        Bessel recursions longer than their work arrays: flag failure
+            MAXITER=-1
+            RETURN
+         ENDIF
          CALL TMATR0 (NGAUSS,X,W,AN,ANN,S,SS,PPI,PIR,PII,R,DR,
      &                 DDR,DRR,DRI,NMAX,NCHECK)
          QEXT=0D0
@@ -415,6 +421,11 @@ C       IF (NGAUSS.EQ.NPNG1) PRINT 7336
          CALL CONST(NGAUSS,NMAX,MMAX,P,X,W,AN,ANN,S,SS,NP,EPS)
          CALL VARY(LAM,MRR,MRI,A,EPS,NP,NGAUSS,X,P,PPI,PIR,PII,R,
      &              DR,DDR,DRR,DRI,NMAX)
+         IF (IFAIL.NE.0) THEN
+C        Bessel recursions longer than their work arrays: flag failure
+            MAXITER=-1
+            RETURN
+         ENDIF
          CALL TMATR0 (NGAUSS,X,W,AN,ANN,S,SS,PPI,PIR,PII,R,DR,
      &                 DDR,DRR,DRI,NMAX,NCHECK)
          QEXT=0D0
@@ -990,6 +1001,8 @@ C**********************************************************************
      *        DRR(NPNG2),DRI(NPNG2),
      *        DY(NPNG2,NPN1)
       COMMON /CBESS/ J,Y,JR,JI,DJ,DY,DJR,DJI
+      COMMON /CFAIL/ IFAIL
+      IFAIL=0
       NG=NGAUSS*2
       IF (NP.GT.0) CALL RSP2(X,NG,A,EPS,NP,R,DR)
       IF (NP.EQ.-1) CALL RSP1(X,NG,NGAUSS,A,EPS,NP,R,DR)
@@ -1025,6 +1038,12 @@ C       IF (NMAX.GT.NPN1) PRINT 9000,NMAX,NPN1
       NNMAX1=1.2D0*DSQRT(DMAX1(TA,DFLOAT(NMAX)))+3D0
       NNMAX2=(TB+4D0*(TB**0.33333D0)+1.2D0*DSQRT(TB))
       NNMAX2=NNMAX2-NMAX+5
+C     RJB and CJB hold their downward recursions in Z(800) and
+C     CZR(1200), CZI(1200)
+      IF (NMAX+NNMAX1.GT.800.OR.NMAX+NNMAX2.GT.1200) THEN
+         IFAIL=1
+         RETURN
+      ENDIF
       CALL BESS(Z,ZR,ZI,NG,NMAX,NNMAX1,NNMAX2)
       RETURN
       END
